@@ -19,7 +19,7 @@ META = {
     'stubs': simh.STUBS, 'assumptions': ['feasible configurations (each observation alone fits telescope, ingest limit, cluster, both buffers)'],
 }
 
-ALGS = {'batch1': dict(kind='batch', parts=1, min=1), 'batch2': dict(kind='batch', parts=2, min=1), 'queue': dict(kind='queue'),
+ALGS = {'dupfirst': dict(kind='dupfirst'), 'batch1': dict(kind='batch', parts=1, min=1), 'batch2': dict(kind='batch', parts=2, min=1), 'queue': dict(kind='queue'),
         'batch3': dict(kind='batch', parts=3, min=1),
         # legal but unusual: no global minimum, per-observation (min, max) splits, many partitions
         'batchsplit': dict(kind='batch', parts=2, min=1, split={'o1': (3, 3), 'o2': (1, 3), 'o3': (1, 2)}),
@@ -84,6 +84,10 @@ def prof_two(v):
     sc['max_ingest'] = mi
     sc['obs'][0].update(start=PIN.get('s1', 0), dur=d1, ingest=PIN.get('g1', 1), arrays=PIN.get('arrays1', 1))
     sc['obs'][1].update(start=s2, dur=d2, ingest=g2, arrays=PIN.get('arrays2', 1))
+    if PIN.get('dur_frac'):
+        # durations that are not a whole number of timesteps (a non-second unit): the ingest streams for ceil(duration) steps
+        for o in sc['obs']:
+            o['dur'] = o['dur'] + PIN['dur_frac']
     sc['arrays'] = PIN.get('arrays', 4)
     sc['graphs'] = [dict(n=2, edges=[[0, 1, vol]] if PIN.get('edge', True) else [], durs=[da, db])]
     sc['delays'] = PIN.get('delays', [])
